@@ -15,6 +15,7 @@ pub static DEF: PropDef = PropDef {
     assumptions: &["names are valid UTF-8 (the statement's domain)", "the pipe is modelled by capturing find's stdout and feeding it to xargs' stdin (both real processes)"],
     run,
     replay,
+    fuzz: None,
 };
 
 #[derive(Serialize, Deserialize, Debug, Clone)]
